@@ -15,6 +15,7 @@ HOSTILE_LINES = [b"", b"\x00", b"\xff\xfe\xfd", b"{", b"}", b"[", b'{"a":', b'{"
                  b"1h1h1h1h1h", b"99999999999999999999h", b"1EiB", b"99999999999999999999999GB", b"-5KB", b"5 K B",
                  b'{"ids":[1,null,3]}', b'{"obj":{"list":[null]}}', b'{"a":null,"b":[null,null]}', b"[null]", b'{"a":[{"b":null}]}', b'{"_entry":null}', b'{"a":9007199254740993}',
                  b'a=1 a=2 a', b'{"a":"b"} trailing', b'{"a":1}{"a":2}',
+                 b'{"d":' + b'{"k":[' * 10 + b'1' + b']}' * 10 + b'}', b'{"d":' + b'[{"k":' * 20 + b'"v"' + b'}]' * 20 + b'}', b'[{"k":' * 17, b'{"a":' * 40 + b'1' + b'}' * 40,
                  b'{"caf\xe9": 1}', b'{"k\xff": 1}', b'{"\xe4\xb8": 2}', b'{"a\xff": 1, "\xffb": 2, "\xc3": 3}', b'caf\xe9=1 k\xff=2']
 SWEEP_STAGES = ['| json', '| json a, ids, obj', '| json x="a", y="obj.list[0]", z="ids[1]"', '| logfmt', '| logfmt a, b', '| unpack', '| regexp `(?P<k>[a-z]+)=(?P<v>[^ ]*)`', '| regexp `(?P<a>[a-z]+)(?: (?P<took>[0-9]+ms))?`', '| regexp `(?P<a>[a-z]+)|(?P<b>[0-9.]+)`',
                 '| pattern "<a> <b>"', '| pattern "<_>=<v>"', '| decolorize', '| line_format "{{ .a }}/{{ __line__ }}"', '| label_format z="{{ .a | ToUpper }}"', '|= ip("10.0.0.0/8")',
